@@ -128,6 +128,16 @@ def run(cx):
                 inst.violation(b.path, "emission after terminal " + kind, "after the terminal event another event/delivery for the same connection is reachable in the same handler", at=b.span_at(bad))
 
 
+_run_core = run
+
+
+def run(cx):
+    _run_core(cx)
+    from props.shared import leave_implies_terminal, dispatch_table
+    leave_implies_terminal(cx, "C08.e")
+    dispatch_table(cx, "C08.f")
+
+
 SELFTEST = [
     {"name": "push Disconnect in handle_disconnect_ack without leaving Closing (server)",
      "edits": [{"file": "src/server/mod.rs", "old": "                    self.events_out.push(Event::Disconnect(client_addr));\n\n                    client.state = remote_client::State::Fin;\n                    std::mem::drop(client);\n                    self.clients.remove(&client_addr);", "new": "                    self.events_out.push(Event::Disconnect(client_addr));\n                    std::mem::drop(client);"}],
